@@ -80,9 +80,32 @@ Theorem C10_cursor_ceil_walk : forall bf (m : mast K V) l j n k,
 Proof. exact (cursor_ceil_walk K V cmp layer cmp_eq cmp_trans). Qed.
 End CURSOR.
 
-(** PARTIAL: Max and Backward (the mirror image) are modelled and compared with the implementation on
-    every run (random walks from Min, Max and Ceil on trees of all residencies, incl. empty trees,
-    judged by a bisect oracle) but not proved yet. *)
+(** Max and Backward, the mirror image: [before p] lists the entries up to and including the cursor *)
+Section CURSOR_BACK.
+Variables (K V : Type) (cmp : K -> K -> comparison) (layer : K -> nat).
+
+Theorem C10_max : forall F (n : node K V), ne K V F n ->
+  oks (cur_max _ _ F [(n, 0%Z)]) (fun p' => before K V p' = to_list_n K V n /\ valid K V p' /\ pok K V F p').
+Proof. exact (max_ok K V). Qed.
+
+Theorem C10_backward : forall F p, valid K V p -> pok K V F p ->
+  oks (cur_backward _ _ F p) (fun p' => before K V p' = removelast (before K V p) /\ valid K V p' /\ pok K V F p').
+Proof. exact (backward_ok K V). Qed.
+
+Theorem C10_get_is_last : forall p, valid K V p -> cur_get _ _ p = hd_error (rev (before K V p)).
+Proof. exact (get_is_last K V). Qed.
+
+Theorem C10_cursor_walk_back : forall bf (m : mast K V) l j n,
+  canon K V cmp layer bf m l -> l <> [] -> root_n _ _ (m_root _ _ m) = Some n ->
+  oks (let* p := cur_max _ _ (S (m_height _ _ m)) [(n, 0%Z)] in backward_n K V (S (m_height _ _ m)) j p)
+      (fun p => cur_get _ _ p = nth_error (rev l) j).
+Proof. exact (cursor_walk_back K V cmp layer). Qed.
+End CURSOR_BACK.
+
+(** PARTIAL: mixed walks (Forward after Backward, Ceil then Backward) are covered separately by the
+    two denotations ([after], [before]) but the theorem relating them at one position
+    (before p ++ tl (after p) = listing) is not stated; cursors on empty trees report no entry
+    (C10_seek_empty and the correspondence check). *)
 Print Assumptions C10_seek_iter.
 Print Assumptions C10_from_key_is_suffix.
 Print Assumptions C10_iter.
@@ -93,3 +116,7 @@ Print Assumptions C10_forward.
 Print Assumptions C10_ceil.
 Print Assumptions C10_cursor_walk.
 Print Assumptions C10_cursor_ceil_walk.
+Print Assumptions C10_max.
+Print Assumptions C10_backward.
+Print Assumptions C10_get_is_last.
+Print Assumptions C10_cursor_walk_back.
